@@ -18,6 +18,10 @@ func init() {
 				r.Rule("R09g", "FLAG-PER-POSITION: the keep flag stored with a node inside a loop of the map forest is computed within that iteration, never carried over from an earlier position")
 				checkFlagPerPosition(p, r, "R09g")
 			}},
+			{ID: "R09h", Statement: "every root handed to the constructor is stored", Run: func(p *Program, r *Report) {
+				r.Rule("R09h", "STORE-EVERY-ROOT: the loop of the from-roots constructor stores a node for every root position it is given, the empty roots included (the addition code requires a node at every root position it merges over)")
+				checkStoreEveryRecord(p, r, "R09h", []string{"NewMapPollardFromRoots"}, 1)
+			}},
 			{ID: "R09d", Statement: "prune clears the keep flag", Run: func(p *Program, r *Report) {
 				r.Rule("R09d", "PRUNE-CLEARS-FLAG: after Prune removed a leaf from the cache index, every continuing path stores its node back with the keep flag cleared")
 				checkPruneClearsFlag(p, r, "R09d")
